@@ -203,7 +203,7 @@ def wfsa_to_bytes_support(ctx):
     f = z3.And(z3.Length(s) <= L, z3.InRe(s, z3.Star(byte)), acc1 != acc2)
     if P.get("canary"):
         f = z3.And(z3.Length(s) <= L, z3.InRe(s, z3.Star(byte)), acc1 != z3.And(acc2, z3.Length(s) > 1))
-    ctx.unsat(label, f, decode=lambda mdl: {"b": SE.z3_str(mdl, s)}, sig=f"wfsa.to_bytes:support:{'+'.join(names)}")
+    ctx.unsat(label, f, decode=lambda mdl: {"b": SE.z3_str(mdl, s)}, sig=f"wfsa.to_bytes:support:{'+'.join(names)}", vars=[s])
 
 
 @case("C17", "cfg_to_bytes", domain="SW")
